@@ -94,10 +94,19 @@ def forbidden_tokens() -> list[str]:
 
 def theorem_names(prop: str) -> list[str]:
     """Theorems of `Props/<prop>.lean` = the proof obligations of the property."""
-    src = (LEAN / "NdonnxVerif" / "Props" / f"{prop}.lean").read_text()
-    ns = re.search(r"^namespace\s+(\S+)", src, re.M)
-    prefix = ns.group(1) + "." if ns else ""
-    return [prefix + m.group(1) for m in re.finditer(r"^theorem\s+([^\s:({\[]+)", src, re.M)]
+    names = []
+    for f in prop_files(prop):
+        src = f.read_text()
+        ns = re.search(r"^namespace\s+(\S+)", src, re.M)
+        prefix = ns.group(1) + "." if ns else ""
+        names += [prefix + m.group(1) for m in re.finditer(r"^theorem\s+([^\s:({\[]+)", src, re.M)]
+    return names
+
+
+def prop_files(prop: str):
+    """`Props/<prop>.lean` and its continuation files `Props/<prop><Suffix>.lean`."""
+    d = LEAN / "NdonnxVerif" / "Props"
+    return [d / f"{prop}.lean"] + sorted(p for p in d.glob(f"{prop}?*.lean"))
 
 
 def audit(prop: str) -> dict:
@@ -106,7 +115,7 @@ def audit(prop: str) -> dict:
     WORK.mkdir(exist_ok=True)
     f = WORK / f"Audit_{prop}_{os.getpid()}.lean"
     f.write_text(
-        f"import NdonnxVerif.Props.{prop}\n" + "".join(f"#print axioms {n}\n" for n in names)
+        "".join(f"import NdonnxVerif.Props.{p.stem}\n" for p in prop_files(prop)) + "".join(f"#print axioms {n}\n" for n in names)
     )
     try:
         p = subprocess.run(["lake", "env", "lean", str(f)], cwd=LEAN, capture_output=True,
